@@ -71,10 +71,15 @@ impl Authority {
 		let uri: Uri = value.parse().map_err(AuthorityError::InvalidUri)?;
 		let authority = uri.authority().ok_or(AuthorityError::MissingHost)?;
 		let host = authority.host();
-		let maybe_port = &authority.as_str()[host.len()..];
+		// The authority may start with `userinfo@` which is not part of the host.
+		let host_and_port = authority.as_str().rsplit('@').next().unwrap_or_default();
+		let maybe_port = host_and_port.get(host.len()..).unwrap_or_default();
 
 		// After the host segment, the authority may contain a port such as `fooo:33`, `foo:*` or `foo`
+		// and nothing else, for instance `[::1].foo.com` must not be regarded as `[::1]`.
 		let port = match maybe_port.split_once(':') {
+			None if !maybe_port.is_empty() => return Err(AuthorityError::InvalidPort(maybe_port.to_owned())),
+			Some((junk, _)) if !junk.is_empty() => return Err(AuthorityError::InvalidPort(maybe_port.to_owned())),
 			Some((_, "*")) => Port::Any,
 			Some((_, p)) => {
 				let port_u16: u16 =
